@@ -17,6 +17,19 @@ Streams (model `Wpull.WarcWrite` vs the real code in the wpull checkout):
            new WARCRecorder on the directory, which must refuse.
   startup  `_check_journals_and_maybe_raise` on directories with / without
            journal files, prefixes with glob metacharacters.
+  life     whole recorder lives -- `WARCRecorder(...)` (its `_start_new_warc_file`:
+           truncation of a non-appending run + the warcinfo append), records with
+           `flush_session` roll-over at max_size, `close()` with the `-meta`
+           archive and the log record -- over directories holding LEFT-OVER files
+           of every archive name (plain, -NNNNN, -meta; with and without stale
+           journals); OSError and a real kill at EVERY primitive of the life,
+           including the constructor's first append and the appends inside
+           close().  Model: `startLife` / `runLife` over a directory map; compared:
+           the trace WITH FILE NAMES, every file of the directory, the status.
+           Oracle per archive: valid, or its OWN journal names its pre-append
+           length and cutting there restores it; every journal sits next to the
+           archive in flight; every other file byte-identical; the bytes-before of
+           a non-appending start are the EMPTY file after truncation.
 Oracles on the real code alone: after an injected OSError whose rollback and
 unlink primitives worked, archive == bytes before the attempt and no journal;
 after a kill: archive valid (old or old + complete record) or the journal names
@@ -42,7 +55,12 @@ RULE = ('append/kill: configurations {gzip, plain} x buffer {the real default, 6
         '(thorough: all of them for bodies <= 200 bytes with no / 2 earlier records, 800 sampled per other configuration; '
         'quick: 100 sampled per small configuration) and a sample of third faults. Single kills are real child processes '
         '(os._exit at the primitive); in quick the kills of multi-fault schedules are simulated in-process and the '
-        'simulation is compared with the real kill on every single-kill case. startup: prefixes (plain, glob '
+        'simulation is compared with the real kill on every single-kill case. life: {gzip, plain} x {appending, not} x '
+        '{(no max_size, no log), (no max_size, log), (max_size 900, log), (max_size 900, no log)} x 5 sets of left-over '
+        'archives (none; same name; plain + numbered + -meta; numbered + -meta; empty) -- 6 fixed lives (first append over '
+        'a left-over file, roll-over + -meta over left-overs, appending with used numbers) + 4 sampled per quick run, the '
+        'whole grid in thorough -- x EVERY primitive of the life (constructor .. close()) x {OSError, real kill} (writes: '
+        'prefix 0 and half), 30/150 second faults per life; 32 lives over stale journals of every name kind. startup: prefixes (plain, glob '
         'metacharacters, empty, non-ASCII) x journal present/absent x unrelated and near-miss names. '
         'non-trivial = at least one fault or kill is scheduled (startup: at least one file); '
         'distinct by (stream, kill mode, configuration, body, schedule)')
@@ -76,20 +94,42 @@ class Injector:
         self.die_hook = die_hook
         self.src_fail = src_fail
         self.dead = False       # simulated kill: every later primitive is suppressed
+        self.dir = None         # life mode: the scratch directory
+        self.names = []         # file name per trace entry
+        self.snapshot = None    # life mode: callable -> {name: bytes}
+        self.snaps = {}
         self.after_unlink = False
 
     def role(self, path):
         path = os.fspath(path)
+        if self.dir is not None:
+            # life mode: every archive / journal of the scratch directory
+            d, base = os.path.split(path)
+            if d != self.dir or base.startswith('child-'):
+                return None
+            return 'j' if base.endswith('-wpullinc') else 'a'
         if path == self.journal:
             return 'j'
         if path == self.warc:
             return 'a'
         return None
 
-    def step(self, kind, role, arg=None):
+    def mark(self, kind, arg):
+        """A call boundary (not a primitive): which method starts, aimed at which archive."""
+        if not self.active or self.dead:
+            return
+        self.n += 1
+        self.trace.append(['mark', kind, arg, 'ok'])
+        self.after_unlink = False
+        self.names.append(None)
+        if self.snapshot is not None:
+            self.snaps[kind] = self.snapshot()
+
+    def step(self, kind, role, arg=None, name=None):
         """Register primitive; return (index, action or None)."""
         i = self.n
         self.n += 1
+        self.names.append(os.path.basename(os.fspath(name)) if name is not None else None)
         act = self.schedule.get(i)
         self.trace.append([kind, role, arg, 'ok'])
         return i, act
@@ -112,7 +152,8 @@ class FaultyFileIO(io.FileIO):
     def __init__(self, inj, role, path, mode):
         self._inj = inj
         self._role = role
-        i, act = inj.step('open', role, mode)
+        self._path = path
+        i, act = inj.step('open', role, mode, path)
         if act:
             if act[0] == 'die':
                 inj.outcome(i, 'die')
@@ -132,7 +173,7 @@ class FaultyFileIO(io.FileIO):
             return len(b)
         if not inj.active:
             return super().write(b)
-        i, act = inj.step('write', self._role, b)
+        i, act = inj.step('write', self._role, b, self._path)
         if act:
             k = min(act[1], len(b))
             done = 0
@@ -154,7 +195,7 @@ class FaultyFileIO(io.FileIO):
             return size
         if not inj.active:
             return super().truncate(size)
-        i, act = inj.step('truncate', self._role, size)
+        i, act = inj.step('truncate', self._role, size, self._path)
         if act:
             if act[0] == 'die':
                 inj.outcome(i, 'die')
@@ -169,7 +210,7 @@ class FaultyFileIO(io.FileIO):
         inj = self._inj
         if inj.dead or not inj.active:
             return super().close()
-        i, act = inj.step('close', self._role)
+        i, act = inj.step('close', self._role, None, self._path)
         if act:
             if act[0] == 'die':
                 inj.outcome(i, 'die')
@@ -221,7 +262,7 @@ class _PathProxy:
             raise Die()
         if role is None or not inj.active or inj.after_unlink:
             return os.path.getsize(path)
-        i, act = inj.step('getsize', role)
+        i, act = inj.step('getsize', role, None, path)
         if act:
             if act[0] == 'die':
                 inj.outcome(i, 'die')
@@ -246,7 +287,7 @@ class _OsProxy:
             return None
         if role is None or not inj.active:
             return os.remove(path)
-        i, act = inj.step('unlink', role)
+        i, act = inj.step('unlink', role, None, path)
         if act:
             if act[0] == 'die':
                 inj.outcome(i, 'die')
@@ -275,11 +316,28 @@ class patched:
         import gzip
         import wpull.warc.recorder as rec
         self.rec, self.gzip = rec, gzip
-        self.saved = (rec.__dict__.get('open', None), rec.os, gzip.builtins)
+        import wpull.util as wutil
+        self.wutil = wutil
+        self.saved = (rec.__dict__.get('open', None), rec.os, gzip.builtins, wutil.__dict__.get('open', None),
+                      rec.WARCRecorder.write_record, rec.WARCRecorder._start_new_warc_file)
         fopen = make_open(self.inj)
         rec.open = fopen
         rec.os = _OsProxy(self.inj)
         gzip.builtins = types.SimpleNamespace(open=fopen)
+        wutil.open = fopen              # wpull.util.truncate_file
+        inj = self.inj
+        if inj.dir is not None:
+            orig_wr, orig_st = self.saved[4], self.saved[5]
+
+            def write_record(recorder, *a, **k):
+                inj.mark('write_record', os.path.basename(recorder._warc_filename))
+                return orig_wr(recorder, *a, **k)
+
+            def _start_new_warc_file(recorder, *a, **k):
+                inj.mark('start', None)
+                return orig_st(recorder, *a, **k)
+            rec.WARCRecorder.write_record = write_record
+            rec.WARCRecorder._start_new_warc_file = _start_new_warc_file
         return self.inj
 
     def __exit__(self, *exc):
@@ -290,6 +348,12 @@ class patched:
             rec.open = self.saved[0]
         rec.os = self.saved[1]
         gzip.builtins = self.saved[2]
+        if self.saved[3] is None:
+            self.wutil.__dict__.pop('open', None)
+        else:
+            self.wutil.open = self.saved[3]
+        rec.WARCRecorder.write_record = self.saved[4]
+        rec.WARCRecorder._start_new_warc_file = self.saved[5]
         self.inj.active = False
         return False
 
@@ -779,6 +843,442 @@ def sweep(ctx, compress, bufsize, prior, body_len, body_seed, doubles, rng, mult
         run_cases(ctx, rng.sample(third, k))
 
 
+# ------------------------------------------------------------------ lives: constructor .. close() over a directory
+LIFE_PREFIX = 'crawl'
+_LEFT = {}
+
+
+def ext_of(compress):
+    return '.warc.gz' if compress else '.warc'
+
+
+def leftover_bytes(compress, k):
+    """A valid archive with k records, as an earlier run would have left it."""
+    key = (bool(compress), k)
+    if key not in _LEFT:
+        WARCRecorder, WARCRecorderParams, _ = _mods()
+        d = tempfile.mkdtemp(prefix='c06l-', dir=os.environ.get('TMPDIR'))
+        try:
+            rec = WARCRecorder(os.path.join(d, 'old'), params=WARCRecorderParams(compress=compress, log=False))
+            for i in range(k - 1):
+                rec.write_record(make_record(make_body(30 + 7 * i, i + 1), 'urn:x-c06:old%d' % i))
+            with open(rec._warc_filename, 'rb') as f:
+                _LEFT[key] = f.read()
+        finally:
+            shutil.rmtree(d, ignore_errors=True)
+    return _LEFT[key]
+
+
+def valid_sequence(data, compress):
+    """Independent reader: `data` is a sequence of complete WARC records (gzip: of complete members)."""
+    if data is None:
+        return True
+    if compress:
+        import zlib
+        out, rest = [], data
+        while rest:
+            dobj = zlib.decompressobj(16 + zlib.MAX_WBITS)
+            try:
+                out.append(dobj.decompress(rest))
+            except zlib.error:
+                return False
+            if not dobj.eof:
+                return False
+            rest = dobj.unused_data
+        data = b''.join(out)
+    pos = 0
+    while pos < len(data):
+        if not data.startswith(b'WARC/1.0\r\n', pos):
+            return False
+        end = data.find(b'\r\n\r\n', pos)
+        if end < 0:
+            return False
+        length = None
+        for line in data[pos:end].split(b'\r\n'):
+            if line.lower().startswith(b'content-length:'):
+                try:
+                    length = int(line.split(b':', 1)[1])
+                except ValueError:
+                    return False
+        if length is None:
+            return False
+        block_end = end + 4 + length
+        if data[block_end:block_end + 4] != b'\r\n\r\n':
+            return False
+        pos = block_end + 4
+    return True
+
+
+def dir_snapshot(d):
+    out = {}
+    for n in os.listdir(d):
+        p = os.path.join(d, n)
+        if n.startswith('child-') or not os.path.isfile(p):
+            continue
+        with builtins.open(p, 'rb') as f:
+            out[n] = f.read()
+    return out
+
+
+def _life_body(d, tmp, case):
+    WARCRecorder, WARCRecorderParams, _ = _mods()
+    rec = WARCRecorder(os.path.join(d, LIFE_PREFIX), params=WARCRecorderParams(
+        compress=case['compress'], log=case['log'], appending=case['appending'], max_size=case['max_size'],
+        temp_dir=tmp))
+    for i, n in enumerate(case['records']):
+        rec.write_record(make_record(make_body(n, 2 * i), 'urn:x-c06:life%d' % i))
+        rec.flush_session()
+    rec.close()
+
+
+def _life_run(d, tmp, case, die_hook=None):
+    import logging
+    inj = Injector(os.path.join(d, LIFE_PREFIX), sched_of(case), die_hook=die_hook)
+    inj.dir = d
+    inj.snapshot = lambda: dir_snapshot(d)
+    root = logging.getLogger()
+    handlers, level = list(root.handlers), root.level
+    status = 'done'
+    try:
+        with patched(inj):
+            try:
+                _life_body(d, tmp, case)
+            except OSError:
+                status = 'raised'
+    except Die:
+        status = 'died'
+    finally:
+        for h in list(root.handlers):
+            if h not in handlers:
+                root.removeHandler(h)
+                try:
+                    h.stream.close()
+                except Exception:
+                    pass
+        root.setLevel(level)
+    return inj, status
+
+
+def _hexsnap(snap):
+    return {k: v.hex() for k, v in snap.items()}
+
+
+def _dump_life(path, status, inj):
+    with builtins.open(path, 'w') as f:
+        json.dump({'status': status, 'names': inj.names,
+                   'snaps': {k: _hexsnap(v) for k, v in inj.snaps.items()},
+                   'trace': [[k, r, (a.hex() if isinstance(a, bytes) else a), isinstance(a, bytes), o]
+                             for k, r, a, o in inj.trace]}, f)
+
+
+def run_life_real(case):
+    d = tempfile.mkdtemp(prefix='c06d-', dir=os.environ.get('TMPDIR'))
+    tmp = tempfile.mkdtemp(prefix='c06t-', dir=os.environ.get('TMPDIR'))
+    try:
+        ext = ext_of(case['compress'])
+        for suffix, k, stale in case['leftovers']:
+            name = LIFE_PREFIX + suffix + ext
+            if k is not None:
+                with builtins.open(os.path.join(d, name), 'wb') as f:
+                    f.write(leftover_bytes(case['compress'], k) if k else b'')
+            if stale:
+                with builtins.open(os.path.join(d, name + '-wpullinc'), 'wb') as f:
+                    f.write(b'wpull-journal-version:1\noffset:0\n')
+        init = dir_snapshot(d)
+        schedule = sched_of(case)
+        if any(a[0] == 'die' for a in schedule.values()) and case.get('kill_mode', 'fork') == 'fork':
+            out = os.path.join(d, 'child-trace.json')
+            pid = os.fork()
+            if pid == 0:
+                code = 3
+                try:
+                    inj, status = _life_run(d, tmp, case, die_hook=lambda i: _dump_life(out, 'died', i))
+                    _dump_life(out, status, inj)
+                    code = 0
+                except BaseException:
+                    import traceback
+                    traceback.print_exc()
+                finally:
+                    os._exit(code)
+            _, st = os.waitpid(pid, 0)
+            rc = os.waitstatus_to_exitcode(st)
+            if rc not in (0, 77) or not os.path.exists(out):
+                raise Infra('C06 life child process failed (rc=%s)' % rc)
+            with builtins.open(out) as f:
+                dd = json.load(f)
+            status, names = dd['status'], dd['names']
+            trace = [[k, r, (bytes.fromhex(a) if isb else a), o] for k, r, a, isb, o in dd['trace']]
+            snaps = {k: {n: bytes.fromhex(v) for n, v in sn.items()} for k, sn in dd['snaps'].items()}
+        else:
+            inj, status = _life_run(d, tmp, case)
+            trace, names, snaps = inj.trace, inj.names, inj.snaps
+        final = dir_snapshot(d)
+        restart_refused = None
+        if any(n.endswith('-wpullinc') for n in final):
+            WARCRecorder, WARCRecorderParams, _ = _mods()
+            try:
+                WARCRecorder(os.path.join(d, LIFE_PREFIX), params=WARCRecorderParams(
+                    compress=case['compress'], log=False, appending=True, max_size=case['max_size']))
+                restart_refused = False
+            except OSError:
+                restart_refused = True
+        return {'status': status, 'trace': trace, 'names': names, 'snaps': snaps, 'init': init, 'final': final,
+                'restart_refused': restart_refused}
+    finally:
+        shutil.rmtree(d, ignore_errors=True)
+        shutil.rmtree(tmp, ignore_errors=True)
+
+
+def life_steps(r, appending):
+    """Cut the logged life into steps (one per _start_new_warc_file / write_record call)."""
+    steps, cur = [], None
+    for entry, name in zip(r['trace'], r['names']):
+        if entry[0] == 'mark':
+            if entry[1] == 'start':
+                cur = {'kind': 'startKeep' if appending else 'startTrunc', 'target': None, 'pre': [], 'body': [],
+                       'in_body': False}
+                steps.append(cur)
+            elif cur is not None and not cur['in_body']:
+                cur['target'] = entry[2]
+                cur['in_body'] = True
+            else:
+                cur = {'kind': 'append', 'target': entry[2], 'pre': [], 'body': [], 'in_body': True}
+                steps.append(cur)
+            continue
+        if cur is None:
+            cur = {'kind': 'append', 'target': name or '?', 'pre': [], 'body': [], 'in_body': True}
+            steps.append(cur)
+        (cur['body'] if cur['in_body'] else cur['pre']).append((entry, name))
+    for st in steps:
+        if st['target'] is None:
+            st['target'] = st['pre'][0][1] if st['pre'] else '?'
+    return steps
+
+
+def life_model_and_text(case, r):
+    """-> (model request line, canonical text of the real run)"""
+    steps = life_steps(r, case['appending'])
+    toks, text = [], []
+    for st in steps:
+        topen = tclose = 'ok'
+        seen = 0
+        for (kind, role, arg, out), name in st['pre']:
+            if kind == 'open' and role == 'a' and arg == 'w' and seen == 0:
+                topen = enc_out(out)
+                nm = 'topen'
+            elif kind == 'close' and role == 'a' and seen == 1:
+                tclose = enc_out(out)
+                nm = 'tclose'
+            else:
+                nm = 'unexpected-%s-%s' % (kind, arg if not isinstance(arg, bytes) else len(arg))
+            seen += 1
+            text.append('%s|%s:%s' % (enc(name or '?'), nm, enc_tag(out)))
+        sch, btext = analyse([e for e, _ in st['body']])
+        if st['body']:
+            for (e, name), t in zip(st['body'], btext.split(',')):
+                text.append('%s|%s' % (enc(name or '?'), t))
+        toks.append(' '.join([st['kind'], enc(st['target']), topen, tclose, sch['getsize'], sch['jopen'], sch['jwrite'],
+                              sch['jretry'], sch['jclose'], sch['junlink'], sch['aopen'],
+                              '/'.join(enc(x) for x in sch['adata']) or '~', ','.join(sch['aouts']) or '~', 'F',
+                              sch['aclose'], sch['ropen'], sch['rtrunc'], sch['rclose'], sch['unlink']]))
+    universe = set(r['init']) | set(r['final'])
+    for st in steps:
+        universe |= {st['target'], st['target'] + '-wpullinc'}
+    universe = sorted(universe)
+    line = 'warcwrite life %s %d %s %d %s' % (
+        enc(LIFE_PREFIX), len(universe), ' '.join('%s %s' % (enc(n), enc_optb(r['init'].get(n))) for n in universe),
+        len(steps), ' '.join(toks))
+    real = '%s %s %s' % (r['status'], ','.join(text) or '~',
+                         ';'.join('%s=%s' % (enc(n), enc_optb(r['final'].get(n))) for n in universe))
+    return line.strip(), real, steps
+
+
+def check_life_oracles(ctx, case, r, steps):
+    pc = dict(case)
+    compress = case['compress']
+    init, final, status = r['init'], r['final'], r['status']
+    journals = [n for n in final if n.endswith('-wpullinc')]
+    archives = [n for n in final if not n.endswith('-wpullinc')]
+
+    def fail(kind, detail):
+        ctx.fail(kind, 'life', pc, detail)
+
+    if journals and not r['restart_refused']:
+        fail('startup-not-refused', 'a new WARCRecorder started although journal(s) %r exist' % journals)
+    if not steps:
+        if final != init:
+            fail('other-archive-touched', 'the run ended before any append but the directory changed')
+        return
+    last = steps[-1]
+    T = last['target']
+    B = r['snaps'].get('write_record' if last['in_body'] else 'start', init)
+    for n in sorted(set(B) | set(final)):
+        if n in (T, T + '-wpullinc'):
+            continue
+        if final.get(n) != B.get(n):
+            kind = 'journal-misplaced' if n.endswith('-wpullinc') else 'other-archive-touched'
+            fail(kind, 'file %r differs from what it was when the step aimed at %r began (%s -> %s bytes)'
+                 % (n, T, None if B.get(n) is None else len(B[n]), None if final.get(n) is None else len(final[n])))
+            return
+    b0 = B.get(T) or b''
+    a = final.get(T) or b''
+    jr = final.get(T + '-wpullinc')
+    if not last['in_body']:
+        # inside truncate_file of a non-appending start: the old file or the empty file
+        if a not in (b0, b''):
+            fail('earlier-records-damaged', 'truncation step left %d bytes that are neither the old nor the empty file' % len(a))
+        return
+    if a[:len(b0)] != b0:
+        fail('earlier-records-damaged', 'archive %r: its first %d bytes differ from what it held before this append '
+             '(status %s)' % (T, len(b0), status))
+        return
+    if status == 'done':
+        bad = [n for n in archives if not valid_sequence(final[n], compress)]
+        if bad or journals:
+            fail('append-incomplete', 'life completed but archives %r are not valid record sequences / journals %r remain'
+                 % (bad, journals))
+    elif status == 'raised':
+        body = [e for e, _ in last['body']]
+        if any(ph in ('r', 'u') and e[3].startswith('fail') for e, ph in zip(body, phases(body))):
+            ctx.tag('excluded:fault-in-rollback-or-unlink')
+            return
+        if a != b0:
+            fail('not-restored', 'OSError came out and archive %r (%d bytes) is not the %d bytes it held before this append'
+                 % (T, len(a), len(b0)))
+        elif jr is not None:
+            fail('journal-left', 'OSError came out, archive %r is unchanged, but its journal remains' % T)
+    else:
+        ok = valid_sequence(a, compress) and T in final or (T not in final and T not in B)
+        if jr is not None:
+            m = _JOURNAL_RE.fullmatch(jr)
+            if m:
+                n = int(m.group(1))
+                if not (n == len(b0) and a[:n] == b0 and valid_sequence(a[:n], compress)):
+                    fail('kill-unrecoverable', 'journal of %r names %d but the archive held %d bytes before this append '
+                         '(now %d); cutting there does not restore it' % (T, n, len(b0), len(a)))
+                    return
+                ok = True
+            elif a != b0:
+                ok = False
+        if not ok:
+            fail('kill-unrecoverable', 'after the kill archive %r (%d bytes, %d before) is not a valid record sequence and '
+                 'has no journal of its own naming the old length (journals present: %r)' % (T, len(a), len(b0), journals))
+
+
+def life_key(case):
+    return ('life', case.get('kill_mode', 'fork'), case['compress'], case['appending'], case['max_size'], case['log'],
+            tuple(tuple(x) for x in case['leftovers']), tuple(case['records']), tuple(sorted(sched_of(case).items())))
+
+
+def run_lives(ctx, cases):
+    results, lines, reals, stepss = [], [], [], []
+    for case in cases:
+        r = run_life_real(case)
+        line, real, steps = life_model_and_text(case, r)
+        results.append(r)
+        lines.append(line)
+        reals.append(real)
+        stepss.append(steps)
+    replies = ctx.model.ask(lines)
+    for case, r, rep, real, steps in zip(cases, results, replies, reals, stepss):
+        nfault = len(sched_of(case))
+        tags = ['life:%s' % r['status'], 'life:steps=%d' % len(steps), 'life:faults=%d' % nfault]
+        if steps:
+            T = steps[-1]['target']
+            kind = '-meta' if '-meta.' in T else ('numbered' if T[len(LIFE_PREFIX):len(LIFE_PREFIX) + 1] == '-' else 'plain')
+            tags.append('life:in-flight=%s/%s' % (steps[-1]['kind'], kind))
+            if nfault and steps[-1]['kind'] == 'startTrunc' and (r['init'].get(T)):
+                tags.append('life:fault-in-first-append-over-leftover')
+        ctx.case(life_key(case), nontrivial=nfault > 0, tags=tags)
+        if real != rep:
+            ctx.disagree('life', dict(case), rep[:700], real[:700])
+        check_life_oracles(ctx, case, r, steps)
+    return results
+
+
+def life_case(compress, appending, max_size, log, leftovers, records, schedule=None, kill_mode='fork'):
+    return {'stream': 'life', 'kill_mode': kill_mode, 'compress': compress, 'appending': appending, 'max_size': max_size,
+            'log': log, 'leftovers': [list(x) for x in leftovers], 'records': list(records),
+            'schedule': {str(k): list(v) for k, v in (schedule or {}).items()}}
+
+
+def sweep_life(ctx, compress, appending, max_size, log, leftovers, records, rng, doubles=0):
+    """Fault-free life, then OSError and a real kill at EVERY primitive of it (constructor, roll-over, close())."""
+    mk = lambda sch: life_case(compress, appending, max_size, log, leftovers, records, sch)
+    base = run_lives(ctx, [mk({})])[0]
+    singles = []
+    for i, entry in enumerate(base['trace']):
+        if entry[0] == 'mark':
+            continue
+        for act in variants(entry, rich=False):
+            singles.append(mk({i: act}))
+    res = run_lives(ctx, singles)
+    ctx.tag('life:configs')
+    ctx.tag('life:primitives', len([e for e in base['trace'] if e[0] != 'mark']))
+    if doubles:
+        second = []
+        for case, r in zip(singles, res):
+            if r['status'] != 'raised':
+                continue
+            sch = sched_of(case)
+            first = max(sch)
+            for j in range(first + 1, len(r['trace'])):
+                if r['trace'][j][0] == 'mark':
+                    continue
+                for act in variants(r['trace'][j], rich=False):
+                    sch2 = dict(sch)
+                    sch2[j] = act
+                    second.append(mk(sch2))
+        if len(second) > doubles:
+            second = rng.sample(second, doubles)
+        run_lives(ctx, second)
+
+
+LEFTOVER_SETS = [
+    [],
+    [['', 2, False]],
+    [['', 3, False], ['-00000', 2, False], ['-00001', 1, False], ['-meta', 2, False]],
+    [['-00000', 2, False], ['-00001', 3, False], ['-00002', 1, False], ['-meta', 3, False]],
+    [['', 0, False], ['-meta', 1, False]],
+]
+STALE_SETS = [
+    [['', 2, True]],
+    [['-00000', 2, False], ['-00001', 1, True]],
+    [['-meta', 2, True]],
+    [['-00000', None, True]],
+]
+
+
+def life_grid():
+    out = []
+    for compress in (False, True):
+        for appending in (False, True):
+            for max_size, log in ((None, False), (None, True), (900, True), (900, False)):
+                for lo in LEFTOVER_SETS:
+                    out.append((compress, appending, max_size, log, lo, [700, 50]))
+    return out
+
+
+def run_life_stream(ctx, rng, thorough):
+    must = []
+    for compress in (False, True):
+        must.append((compress, False, None, False, LEFTOVER_SETS[1], [700, 50]))      # first append over a left-over file
+        must.append((compress, False, 900, True, LEFTOVER_SETS[2], [700, 50]))        # roll-over + -meta over left-overs
+        must.append((compress, True, 900, True, LEFTOVER_SETS[3], [700, 50]))         # appending: skips used numbers
+    grid = [g for g in life_grid() if g not in must]
+    extra = grid if thorough else rng.sample(grid, ctx.scale(4, 4))
+    for (compress, appending, max_size, log, lo, records) in must + extra:
+        sweep_life(ctx, compress, appending, max_size, log, lo, records, rng, doubles=ctx.scale(30, 150))
+    # stale journals of every archive name: the run must refuse and leave everything alone
+    stale = []
+    for compress in (False, True):
+        for appending in (False, True):
+            for max_size in (None, 900):
+                for lo in STALE_SETS:
+                    stale.append(life_case(compress, appending, max_size, False, lo, [50]))
+    run_lives(ctx, stale)
+
+
 # ------------------------------------------------------------------ start-up check
 PREFIXES = ['w', 'site', 'site[1]', 'a*b', 'q?x', 'x-y', '', 'w.warc', '[', ']', 'a[!b]c', 'ü']
 SEQS = ['', '-00000', '-00012', '-meta']
@@ -858,6 +1358,8 @@ def replay(ctx, case, kind=None, where=None):
             run_startup(ctx, [case])
         elif case.get('stream') in ('append', 'kill'):
             run_cases(ctx, [case])
+        elif case.get('stream') == 'life':
+            run_lives(ctx, [case])
         else:
             raise Infra('unknown replay stream %r' % case.get('stream'))
     finally:
@@ -881,6 +1383,8 @@ def run(ctx):
             case = item['case'] if 'case' in item else item
             if case.get('stream') == 'startup':
                 run_startup(ctx, [case])
+            elif case.get('stream') == 'life':
+                run_lives(ctx, [case])
             else:
                 run_cases(ctx, [case])
         rng = ctx.rng
@@ -893,6 +1397,7 @@ def run(ctx):
             sweep(ctx, compress, bufsize, prior, body_len, rng.randrange(1000), doubles, rng,
                   multi_kill='fork' if thorough else 'sim')
         run_startup(ctx, gen_startup(rng, ctx.scale(150, 3000)))
+        run_life_stream(ctx, ctx.subrng('life'), thorough)
         ctx.sample({'stream': 'append', 'example': base_case('append', True, 64, 2, 200, 1, {7: ('fail', 3)})})
         ctx.sample({'stream': 'kill', 'example': base_case('kill', False, None, 3, 9000, 0, {6: ('die', 100)})})
         ctx.note('fault_positions', 'every raw primitive of the fault-free run of every configuration gets OSError and a '
